@@ -265,66 +265,133 @@ def _provenance(run, P):
 
 
 def _idw(run, P):
+    """The value returned by _inverse_distance_weighted_remap, expanded into one expression over its parameters (uxsa/symx: locals substituted, single-path package
+    helpers looked through), must read
+        sum( S[..., I] * W, axis=-1 )      W = W0 / sum(W0, axis=1|-1, keepdims=True)      W0 = c / (D ** power + eps),  c, eps > 0
+    with (_, D, I) the second and third results of _remap_grid_parse(...).  A piece that is recognised and wrong is a violation; a shape that is not
+    recognised is reported as not understood."""
+    from .. import symx
     g = P.func(f"{IDW}:_inverse_distance_weighted_remap")
-    w = [st for st in iter_stmts(g.node.body) if isinstance(st, ast.Assign) and norm(st.targets[0]) == "weights"]
-    c = f"{g.key}:weights"
-    if not w:
-        run.incomplete("SIGN/idw-weights", c, where(g), "weights not found")
-        return
-    v = w[0].value
-    # 1 / (distances ** power + eps)
-    ok = isinstance(v, ast.BinOp) and isinstance(v.op, ast.Div) and isinstance(v.left, ast.Constant) and v.left.value > 0
-    den = v.right if ok else None
-    pos_eps = False
-    pw = False
-    if den is not None and isinstance(den, ast.BinOp) and isinstance(den.op, ast.Add):
-        for a, b in ((den.left, den.right), (den.right, den.left)):
-            if isinstance(a, ast.BinOp) and isinstance(a.op, ast.Pow) and norm(a.left) == "distances" and norm(a.right) == "power":
-                pw = True
-                if isinstance(b, ast.Constant) and isinstance(b.value, (int, float)) and b.value > 0:
-                    pos_eps = True
-    if ok and pw and pos_eps:
-        run.holds("SIGN/idw-weights", c, where(g, w[0]), "weights = positive / (distances**power + positive): positive and non-increasing in the distance for power >= 0")
-    else:
-        run.violation("SIGN/idw-weights", c, where(g, w[0]), f"weights = {norm(v)}: not of the form c/(distances**power + eps) with c, eps > 0 (positivity/monotonicity not evident)")
-    # normalisation along the neighbour axis
-    nz = [st for st in iter_stmts(g.node.body) if isinstance(st, ast.AugAssign) and isinstance(st.op, ast.Div) and norm(st.target) == "weights"]
-    nz += [st for st in iter_stmts(g.node.body) if isinstance(st, ast.Assign) and norm(st.targets[0]) == "weights" and isinstance(st.value, ast.BinOp) and isinstance(st.value.op, ast.Div) and norm(st.value.left) == "weights"]
-    c = f"{g.key}:normalised"
-    if not nz:
-        run.violation("SIGN/idw-weights", c, where(g), "weights are never divided by their sum: the result is not a convex combination")
-    else:
-        s = nz[0].value if isinstance(nz[0], ast.AugAssign) else nz[0].value.right
-        good = isinstance(s, ast.Call) and (dotted(s.func) or [""])[-1] == "sum" and ((s.args and norm(s.args[0]) == "weights") or (isinstance(s.func, ast.Attribute) and norm(s.func.value) == "weights"))
-        axis = next((k.value for k in s.keywords if k.arg == "axis"), None) if isinstance(s, ast.Call) else None
-        keep = next((k.value for k in s.keywords if k.arg == "keepdims"), None) if isinstance(s, ast.Call) else None
-        ax_ok = isinstance(axis, ast.Constant) and axis.value in (1, -1) or (isinstance(axis, ast.UnaryOp) and norm(axis) == "-1")
-        if good and ax_ok and isinstance(keep, ast.Constant) and keep.value is True:
-            run.holds("SIGN/idw-weights", c, where(g, nz[0]), "weights divided by their sum over the neighbour axis (keepdims)")
+    X = symx.Expander(P)
+    rets = X.returns(g)
+    R = "SIGN/idw-weights"
+    cw, cn, cs, ck = (f"{g.key}:{x}" for x in ("weights", "normalised", "weighted-sum", "k-bounds"))
+    if not rets:
+        for c in (cw, cn, cs):
+            run.incomplete(R, c, where(g), "no returning path found")
+    for path, r, _env in rets[:1] if len({norm(r_) for _p, r_, _e in rets}) == 1 else rets:
+        at = where(g, path.events[-1]) if path.events else where(g)
+        # ---- weighted sum over the last axis
+        if not (isinstance(r, ast.Call) and symx.call_name(r) == "sum" and (r.args or isinstance(r.func, ast.Attribute))):
+            run.incomplete(R, cs, at, f"returned value {norm(r)[:90]} is not a sum(...)")
+            run.incomplete(R, cw, at, "weights not located (the returned value is not a weighted sum)")
+            run.incomplete(R, cn, at, "weights not located (the returned value is not a weighted sum)")
+            continue
+        prod = r.args[0] if r.args and not (isinstance(r.func, ast.Attribute) and not (isinstance(r.func.value, ast.Name) and r.func.value.id in ("np", "numpy"))) else r.func.value
+        axis = symx.kw(r, "axis") or (r.args[1] if len(r.args) > 1 else None)
+        fs = symx.factors(prod)
+        gathers = [x for x in fs if isinstance(x, ast.Subscript) and isinstance(x.slice, ast.Tuple) and len(x.slice.elts) == 2 and isinstance(x.slice.elts[0], ast.Constant) and x.slice.elts[0].value is Ellipsis]
+        others = [x for x in fs if x not in gathers]
+        if len(fs) != 2 or len(gathers) != 1:
+            run.incomplete(R, cs, at, f"summand {norm(prod)[:90]} is not (gathered source values) * (weights)")
+            run.incomplete(R, cw, at, "weights not located")
+            run.incomplete(R, cn, at, "weights not located")
+            continue
+        gath, W = gathers[0], others[0]
+        src = symx.strip_neutral(gath.value)
+        idx = gath.slice.elts[1]
+        probs = []
+        if not (isinstance(src, ast.Name) and src.id == "source_data"):
+            probs.append(f"values are gathered from {norm(src)[:40]}, not from source_data")
+        parse_idx = isinstance(idx, ast.Subscript) and symx.call_name(idx.value) == "_remap_grid_parse" and isinstance(idx.slice, ast.Constant)
+        if not parse_idx:
+            run.incomplete(R, cs, at, f"gather index {norm(idx)[:60]} is not a result of _remap_grid_parse")
         else:
-            run.violation("SIGN/idw-weights", c, where(g, nz[0]), f"weights normalised by {norm(s)[:70]}: each destination's weights must be divided by their own sum along the neighbour axis (axis=1, keepdims=True)")
-    # weighted sum along the last axis
-    c = f"{g.key}:weighted-sum"
-    found = False
-    for n in ast.walk(g.node):
-        if isinstance(n, ast.Call) and (dotted(n.func) or [""])[-1] == "sum" and n.args and isinstance(n.args[0], ast.BinOp) and isinstance(n.args[0].op, ast.Mult):
-            sides = {norm(n.args[0].left), norm(n.args[0].right)}
-            axis = next((k.value for k in n.keywords if k.arg == "axis"), None)
-            if "weights" in sides and any(s.startswith("source_data[...") for s in sides):
-                found = True
-                if axis is not None and norm(axis) == "-1":
-                    run.holds("SIGN/idw-weights", c, where(g, n), "result = sum(source_data[..., indices] * weights, axis=-1)")
-                else:
-                    run.violation("SIGN/idw-weights", c, where(g, n), f"weighted values summed along axis {norm(axis) if axis is not None else 'None (all)'}; the neighbour axis is the last one")
-    if not found:
-        run.incomplete("SIGN/idw-weights", c, where(g), "weighted sum not recognised")
-    # k bounds
-    c = f"{g.key}:k-bounds"
-    raises = [st for st in iter_stmts(g.node.body) if isinstance(st, ast.If) and any(isinstance(s, ast.Raise) for s in st.body) and "k" in {x.id for x in ast.walk(st.test) if isinstance(x, ast.Name)}]
-    if len(raises) >= 2:
-        run.holds("SIGN/idw-weights", c, where(g, raises[0]), "inadmissible k raises")
+            if idx.slice.value != 2:
+                probs.append(f"source values are gathered with result #{idx.slice.value} of _remap_grid_parse (the neighbour indices are result #2)")
+            if axis is None or norm(axis) != "-1":
+                probs.append(f"weighted values summed along axis {norm(axis) if axis is not None else 'None (all)'}; the neighbour axis is the last one")
+            if probs:
+                run.violation(R, cs, at, "; ".join(probs))
+            else:
+                run.holds(R, cs, at, "result = sum(source_data[..., neighbour indices] * weights, axis=-1)")
+        # ---- normalisation
+        def w0_form(e):
+            """c / (D ** p + eps) -> (c, D, p, eps) or None"""
+            if isinstance(e, ast.BinOp) and isinstance(e.op, ast.Div) and isinstance(e.right, ast.BinOp) and isinstance(e.right.op, ast.Add):
+                for a_, b_ in ((e.right.left, e.right.right), (e.right.right, e.right.left)):
+                    if isinstance(a_, ast.BinOp) and isinstance(a_.op, ast.Pow):
+                        return e.left, a_.left, a_.right, b_
+            if isinstance(e, ast.BinOp) and isinstance(e.op, ast.Pow) and symx.is_const(e.right, lambda v: v == -1):
+                return w0_form(ast.BinOp(left=ast.Constant(value=1), op=ast.Div(), right=e.left))
+            return None
+        W0 = None
+        if isinstance(W, ast.BinOp) and isinstance(W.op, ast.Div) and isinstance(W.right, ast.Call) and symx.call_name(W.right) == "sum":
+            sm = W.right
+            summed = sm.args[0] if sm.args and not (isinstance(sm.func, ast.Attribute) and not (isinstance(sm.func.value, ast.Name) and sm.func.value.id in ("np", "numpy"))) else sm.func.value
+            ax = symx.kw(sm, "axis") or (sm.args[1] if len(sm.args) > 1 else None)
+            keep = symx.kw(sm, "keepdims")
+            W0 = W.left
+            bad = []
+            if not symx.same(summed, W0):
+                bad.append(f"weights are divided by the sum of {norm(summed)[:50]}, not by their own sum")
+            if ax is None or norm(ax) not in ("1", "-1"):
+                bad.append(f"the normalising sum runs over axis {norm(ax) if ax is not None else 'None (all destinations together)'}; each destination's weights must be divided by their own sum (axis=1)")
+            if not (isinstance(keep, ast.Constant) and keep.value is True):
+                bad.append("keepdims=True missing: the sums are broadcast along the wrong axis")
+            if bad:
+                run.violation(R, cn, at, "; ".join(bad))
+            else:
+                run.holds(R, cn, at, "weights divided by their sum over the neighbour axis (keepdims)")
+        elif w0_form(W) is not None:
+            W0 = W
+            run.violation(R, cn, at, "weights are never divided by their sum: the result is not a convex combination")
+        else:
+            run.incomplete(R, cn, at, f"weights {norm(W)[:90]} are not of the form W0 / sum(W0, axis=1, keepdims=True)")
+        # ---- raw weights
+        form = w0_form(W0) if W0 is not None else None
+        if form is None:
+            run.incomplete(R, cw, at, f"raw weights {norm(W0)[:90] if W0 is not None else '?'} are not of the form c / (distances ** power + eps)")
+        else:
+            cst, D, pw, eps = form
+            bad = []
+            if not symx.is_const(cst, lambda v: v > 0):
+                bad.append(f"numerator {norm(cst)} is not a positive constant")
+            if not symx.is_const(eps, lambda v: v > 0):
+                bad.append(f"regulariser {norm(eps)} is not a positive constant (division by zero at coinciding points, or negative weights)")
+            if not (isinstance(pw, ast.Name) and pw.id == "power"):
+                bad.append(f"exponent is {norm(pw)}, not the power parameter")
+            is_d = isinstance(D, ast.Subscript) and symx.call_name(D.value) == "_remap_grid_parse" and isinstance(D.slice, ast.Constant)
+            if is_d and D.slice.value != 1:
+                bad.append(f"weights are computed from result #{D.slice.value} of _remap_grid_parse (the distances are result #1)")
+            if bad:
+                run.violation(R, cw, at, f"weights = {norm(W0)[:80]}: " + "; ".join(bad))
+            elif not is_d:
+                run.incomplete(R, cw, at, f"distance operand {norm(D)[:60]} is not a result of _remap_grid_parse")
+            else:
+                run.holds(R, cw, at, "weights = positive / (distances**power + positive): positive and non-increasing in the distance for power >= 0")
+    # ---- k bounds: inadmissible k raises before any query (in the function or in a procedure it calls with k)
+    guards = X.raising_guards(g)
+    lo = hi = None
+    for t, st in guards:
+        if isinstance(t, ast.Compare) and len(t.ops) == 1 and isinstance(t.left, ast.Name) and t.left.id == "k":
+            rhs = t.comparators[0]
+            if isinstance(t.ops[0], (ast.LtE, ast.Lt)) and symx.is_const(rhs):
+                lo = (t, st)
+            if isinstance(t.ops[0], (ast.Gt, ast.GtE)) and not symx.is_const(rhs):
+                hi = (t, st)
+    if lo and hi:
+        lt, _ = lo
+        v = lt.comparators[0].value
+        if (isinstance(lt.ops[0], ast.LtE) and v >= 0) or (isinstance(lt.ops[0], ast.Lt) and v >= 1):
+            run.holds(R, ck, where(g, lo[1]), f"inadmissible k raises ({norm(lo[0])}; {norm(hi[0])})")
+        else:
+            run.violation(R, ck, where(g, lo[1]), f"lower guard {norm(lt)} admits k <= 0")
+    elif any("k" in {x.id for x in ast.walk(t) if isinstance(x, ast.Name)} for t, _ in guards):
+        run.incomplete(R, ck, where(g), f"guards on k not recognised: {[norm(t)[:40] for t, _ in guards]}")
     else:
-        run.violation("SIGN/idw-weights", c, where(g), "k outside (1, n] is not rejected")
+        run.violation(R, ck, where(g), "k outside (1, n] is not rejected")
+    run.stats.setdefault("symx_inlined", sorted(set(X.inlined)))
 
 
 def _results(run, P):
